@@ -375,6 +375,10 @@ uint32_t DNS::compose_name(const uint8_t* ptr, char* out_ptr) const {
         else {
             // It's a label, grab its size.
             uint8_t size = *ptr;
+            // high order two bits of the first octet of a label must be either 11 or 00
+            if (TINS_UNLIKELY((size & 0xc0) != 0)) {
+                throw malformed_packet();
+            }
             ptr++;
             if (TINS_UNLIKELY(ptr + size > end || current_out_ptr - out_ptr + size + 1 > 255)) {
                 throw malformed_packet();
